@@ -27,7 +27,6 @@ type convSnapOpts struct {
 	eagerOnly bool // only accessors that filedesc serves without lazy initialisation
 
 	// recognisers of listed known findings (narrow masks, see findings/C37.txt)
-	maskEnums   map[string]bool // FK1: enums of this file whose own options carry features
 	maskExtLazy bool            // FK2: IsLazy of extensions whose options say lazy=true
 	maskPacked  map[string]bool // FK3: fields whose options carry both packed and features.repeated_field_encoding
 }
@@ -76,9 +75,6 @@ func convMsgRef(d protoreflect.MessageDescriptor) string {
 func (s *convSnapper) enumRef(d protoreflect.EnumDescriptor) string {
 	if d == nil {
 		return "<nil>"
-	}
-	if s.o.maskEnums[string(d.FullName())] {
-		return fmt.Sprintf("%s,closed=*", convRef(d))
 	}
 	return fmt.Sprintf("%s,closed=%v", convRef(d), d.IsClosed())
 }
@@ -177,14 +173,10 @@ func (s *convSnapper) enum(ed protoreflect.EnumDescriptor) {
 	if v, ok := ed.(interface{ Visibility() int32 }); ok {
 		vis = fmt.Sprint(v.Visibility())
 	}
-	if s.o.maskEnums[string(ed.FullName())] {
-		s.add(" closed=* visibility=%s", vis)
-	} else {
-		s.add(" closed=%v visibility=%s", ed.IsClosed(), vis)
-		if s.o.features {
-			if x, ok := ed.(*filedesc.Enum); ok {
-				s.add(" features=%s", convFeatStr(x.L1.EditionFeatures))
-			}
+	s.add(" closed=%v visibility=%s", ed.IsClosed(), vis)
+	if s.o.features {
+		if x, ok := ed.(*filedesc.Enum); ok {
+			s.add(" features=%s", convFeatStr(x.L1.EditionFeatures))
 		}
 	}
 	if s.o.eagerOnly {
